@@ -135,7 +135,7 @@ func runC13(c *mon.Ctx) {
 				for _, pol := range []string{"random", "cas-conflict"} {
 					c13Concurrent(c, A, B, t.p, t.a, t.b, h, pol)
 				}
-				for _, pol := range []string{"random", "install-race"} {
+				for _, pol := range []string{"random", "install-race", "install-race-small-held"} {
 					c13OneClient(c, A, B, t.p, t.a, t.b, h, pol)
 				}
 			}
@@ -651,6 +651,17 @@ func c13OneClient(c *mon.Ctx, A, B *world.Log, p, a, b, h int, policy string) {
 			return
 		}
 	}
+	if policy == "install-race-small-held" {
+		// roles swapped: the goroutine with the SMALLER (or equal) head is held after its consistency
+		// check while the larger head is installed; it looks up a record of the common prefix, so only
+		// the comparison of its head with the newly installed one can stop it
+		if p == 0 || nBig == nSmall {
+			return
+		}
+		big, small, nBig, nSmall = small, big, nSmall, nBig
+		idBig, idSmall = p-1, nSmall-1
+	}
+	racePolicy := strings.HasPrefix(policy, "install-race")
 	c.WAL(caseID, nil)
 	r := c.SubRng(caseID)
 	info := map[string]any{"p": p, "a": a, "b": b, "h": h, "policy": policy, "one_client": true}
@@ -722,7 +733,7 @@ func c13OneClient(c *mon.Ctx, A, B *world.Log, p, a, b, h int, policy string) {
 			} else if k == 3 {
 				time.Sleep(time.Duration(40+k*20) * time.Microsecond)
 			}
-		case "install-race":
+		case "install-race", "install-race-small-held":
 			if ev.Op == "Yield" && ev.Arg == "merge:before-install" && ev.Gid == atomic.LoadInt64(&bigGid) {
 				arrivedOnce.Do(func() { close(heldArrived) })
 				select {
@@ -790,14 +801,14 @@ func c13OneClient(c *mon.Ctx, A, B *world.Log, p, a, b, h int, policy string) {
 		branchOf[g] = 1
 		gmu.Unlock()
 		w.Bind(1)
-		if policy == "install-race" {
+		if racePolicy {
 			select {
 			case <-heldArrived:
 			case <-time.After(2 * time.Second):
 			}
 		}
 		atomic.AddInt64(&curSmall, 1)
-		if policy == "install-race" {
+		if racePolicy {
 			// release the held goroutine as soon as this one has installed its head in memory (it may or
 			// may not have flushed the configuration by then: both orders occur)
 			go func() {
@@ -866,8 +877,8 @@ func c13OneClient(c *mon.Ctx, A, B *world.Log, p, a, b, h int, policy string) {
 	f := forced
 	gmu.Unlock()
 	c.Class("one-client:" + policy)
-	if policy == "install-race" && f {
-		c.Class("one-client:install-race-forced")
+	if racePolicy && f {
+		c.Class("one-client:" + policy + "-forced")
 		tr, _ := w.Snapshot()
 		for _, e := range tr {
 			if e.Op == "Yield" && e.Arg == "merge:retry" {
